@@ -70,7 +70,10 @@ Verdict(prev, line) ==
       isRestart == line.ev \in {"Restart", "CrashRestart"}
       completed == IF "crashed" \in DOMAIN line THEN ~line.crashed ELSE TRUE IN
   IF "exc" \in DOMAIN line
-  THEN [fail |-> dup \cup (IF isRestart THEN {"C10.restartOk"} ELSE {"exc"}), ex |-> {}]
+  THEN [fail |-> dup \cup (IF isRestart THEN {"C10.restartOk"} ELSE {"exc"})
+                 \cup (IF isRestart /\ "loaded" \in DOMAIN line /\ line.loaded.alive
+                       THEN Restarted(line) ELSE {}),
+        ex |-> {}]
   ELSE IF isRestart /\ completed
   THEN [fail |-> dup \cup Published(line) \cup Renamed(Published(line)) \cup Restarted(line),
         ex |-> E("C09", C09ex(CanonStore(line.store), CanonModel(line.model)))
